@@ -5,6 +5,22 @@ EXTENDS GramUnify, Json, IOUtils
 Rec == ndJsonDeserialize(IOEnv.TRACE)
 VARIABLE l
 Bad(what) == Print(<<"TRACE-REJECT", l, what>>, TRUE)
+\* two calls in a row on shared holes.  The statement is about one call: each call is judged with the store as it was when
+\* that call returned.  That the FIRST pair is still equal after the second call solved more holes is not demanded by the
+\* statement; when it is not (a solution carried an unsolved hole out of a binder, and the hole was later solved by the
+\* bound variable) a NOTE is printed and counted, never a rejection.
+Judge(a, b, st, e) ==
+  IF ~Acyclic(a, b, st) THEN Bad(<<"C12", "a hole is solved by a term containing itself", e.kind>>)
+  ELSE IF ~ScopeSafe(a, b, st, 0) THEN Bad(<<"C12", "a solution mentions a variable that is not in scope where its hole was written", e.kind>>)
+  ELSE IF ~Consistent(a, b, st, <<>>) THEN
+       Bad(<<"C12", "success, but filling the holes does not make the terms equal", e.kind, "holes_opened", e.holes_opened,
+             "modulo_unsolved", ConsistentModuloUnsolved(a, b, st, <<>>)>>)
+  ELSE TRUE
+TwoStepEv(e) ==
+  IF "panic" \in DOMAIN e THEN Bad(<<"C14", "unify panicked">>)
+  ELSE /\ (e.res => Judge(e.a, e.b, e.store1, e))
+       /\ (e.res2 => Judge(e.a2, e.b2, e.store, e))
+       /\ ((e.res /\ e.res2 /\ Acyclic(e.a, e.b, e.store) /\ ~Consistent(e.a, e.b, e.store, <<>>)) => Print(<<"TRACE-NOTE", l, "chain: first pair no longer equal after the second call">>, TRUE))
 UnifyEv(e) ==
   IF "panic" \in DOMAIN e THEN Bad(<<"C14", "unify panicked">>)
   ELSE IF e.ctx_after # 0 THEN Bad(<<"C18", "the definitions context was not restored">>)
@@ -20,7 +36,7 @@ UnifyEv(e) ==
   ELSE IF e.kind = "conv-yes" THEN Bad(<<"C06", "terms with the same normal form are judged different", "swap", e.swap>>)
   ELSE TRUE
 TInit == l = 1
-TNext == l <= Len(Rec) /\ l' = l + 1 /\ (IF Rec[l].ev = "unify" THEN UnifyEv(Rec[l]) ELSE Bad(<<"tool", "unknown event">>))
+TNext == l <= Len(Rec) /\ l' = l + 1 /\ (IF Rec[l].ev = "unify" THEN UnifyEv(Rec[l]) ELSE IF Rec[l].ev = "unify2" THEN TwoStepEv(Rec[l]) ELSE Bad(<<"tool", "unknown event">>))
 TSpec == TInit /\ [][TNext]_l
 TraceAccepted == IF TLCGet("stats").diameter - 1 = Len(Rec) THEN TRUE ELSE Print(<<"TRACE-STOPPED-AT", TLCGet("stats").diameter>>, FALSE)
 ====
